@@ -88,6 +88,7 @@ partial def pScript : Toks → Option (Script × Toks)
     let (vs, r) ← pVals (← n.toNat?) r
     let (k, r) ← pScript r
     pure (.printf (← fromHex f) (Vals.ofList vs) k, r)
+  | "ip" :: r => do let (k, r) ← pScript r; pure (.indep k, r)
   | "pa" :: r => do let (v, r) ← pVal r; pure (.panic v, r)
   | _ => none
 end
